@@ -115,6 +115,40 @@ pub fn exec(rest: &str, out: &mut Out) -> (String, bool) {
             out.oracle(s.as_disjunction().to_string() == spec_junction(&aa, " or "), "disjunction", || s.as_disjunction().to_string());
             out.oracle(s.as_conjunction().to_string() == spec_junction(&aa, " and "), "conjunction", || s.as_conjunction().to_string());
             out.oracle(s.iter().collect::<Vec<_>>() == (&s).into_iter().collect::<Vec<_>>() && s.into_iter().len() == aa.len(), "IntoIterator forms", || String::new());
+            // every iterator method that a type may override (nth, nth_back, last, count, min, max, fold,
+            // rev, skip, step_by, …), in every sequence of up to three steps, against a Vec's iterator
+            // over the set's members: the iterator must behave like the finite sequence it stands for
+            {
+                let members: Vec<Kind> = aa.iter().map(|&j| KINDS[j]).collect();
+                #[derive(Clone, Copy, Debug)]
+                enum Op { Next, NextBack, Nth(usize), NthBack(usize) }
+                let mut ops = vec![Op::Next, Op::NextBack];
+                for k in 0..8 { ops.push(Op::Nth(k)); ops.push(Op::NthBack(k)); }
+                let apply = |it: &mut dyn DoubleEndedIterator<Item = Kind>, op: Op| match op { Op::Next => it.next(), Op::NextBack => it.next_back(), Op::Nth(k) => it.nth(k), Op::NthBack(k) => it.nth_back(k) };
+                let mut bad: Option<String> = None;
+                for &o1 in &ops { for &o2 in &ops { for &o3 in &ops {
+                    let mut a = s.iter();
+                    let mut b = members.clone().into_iter();
+                    for op in [o1, o2, o3] {
+                        let (ra, rb) = (apply(&mut a, op), apply(&mut b, op));
+                        if ra != rb || a.size_hint() != b.size_hint() || a.len() != b.len() {
+                            if bad.is_none() { bad = Some(format!("{:?} after {:?}: got {:?} size {:?}, sequence semantics {:?} size {:?}", s, [o1, o2, o3], ra, a.size_hint(), rb, b.size_hint())); }
+                        }
+                    }
+                    if a.clone().collect::<Vec<_>>() != b.clone().collect::<Vec<_>>() && bad.is_none() { bad = Some(format!("{:?} remaining after {:?}", s, [o1, o2, o3])); }
+                } } }
+                out.oracle(bad.is_none(), "iterator methods (nth, nth_back, next, next_back in every sequence of three) = the finite sequence of members", || bad.clone().unwrap_or_default());
+                let it = || s.iter();
+                let v = || members.clone().into_iter();
+                let ok = it().last() == v().last() && it().count() == v().count() && Iterator::min(it()) == v().min() && Iterator::max(it()) == v().max()
+                    && it().rev().collect::<Vec<_>>() == v().rev().collect::<Vec<_>>()
+                    && (0..8).all(|k| it().skip(k).collect::<Vec<_>>() == v().skip(k).collect::<Vec<_>>() && it().take(k).collect::<Vec<_>>() == v().take(k).collect::<Vec<_>>()
+                        && it().step_by(k + 1).collect::<Vec<_>>() == v().step_by(k + 1).collect::<Vec<_>>() && it().rev().skip(k).collect::<Vec<_>>() == v().rev().skip(k).collect::<Vec<_>>())
+                    && it().fold(0usize, |acc, k| acc * 7 + k as usize) == v().fold(0usize, |acc, k| acc * 7 + k as usize)
+                    && it().rfold(0usize, |acc, k| acc * 7 + k as usize) == v().rfold(0usize, |acc, k| acc * 7 + k as usize)
+                    && it().any(|k| k == Kind::String) == v().any(|k| k == Kind::String) && it().position(|k| k == Kind::Array) == v().position(|k| k == Kind::Array);
+                out.oracle(ok, "derived iterator adaptors (last, count, min, max, rev, skip, take, step_by, fold, rfold, any, position) = the finite sequence of members", || format!("{:?}", s));
+            }
             (line, x != 0)
         }
         ("iter", Some(x), _) if x < 64 && a.len() == 3 => {
